@@ -79,7 +79,10 @@ type verifRow struct {
 // ---- the database behind the query callbacks: a Go map, read directly ("") or through the real sqlx session
 // kinds over sqlmock: "conn" Conn.QueryRowCtx, "stmt" Conn.PrepareCtx + StmtSession.QueryRowCtx, "tx"
 // Session.QueryRowCtx inside Conn.TransactCtx, "txstmt" Session.PrepareCtx + QueryRowCtx inside TransactCtx.
-var errVerifDB = errors.New("verif db failure")
+var (
+	errVerifDB    = errors.New("verif db failure")
+	errVerifPanic = errors.New("verif: query callback panicked")
+)
 
 type verifSQL struct {
 	db   *sql.DB
@@ -259,6 +262,8 @@ func verifErr(err error) string {
 		return "execerr"
 	case errors.Is(err, errVerifDB):
 		return "dberr"
+	case errors.Is(err, errVerifPanic):
+		return "panic"
 	default:
 		return "err:" + err.Error()
 	}
@@ -318,7 +323,38 @@ func verifRunCase(c verifCase) (any, bool) {
 	}
 	var obs []any
 	armedLost := false
+	// cases with a panicking query callback: every read runs under a watchdog (the caller recovers the panic; a later
+	// read of the key must return within a bounded time)
+	hung, watch := false, false
 	for _, op := range c.Ops {
+		watch = watch || op.Op == "qrowp"
+	}
+	guarded := func(f func() error) error {
+		if !watch {
+			return f()
+		}
+		done := make(chan error, 1)
+		go func() {
+			defer func() {
+				if p := recover(); p != nil {
+					done <- errVerifPanic
+				}
+			}()
+			done <- f()
+		}()
+		select {
+		case err := <-done:
+			return err
+		case <-time.After(1500 * time.Millisecond):
+			hung = true
+			return errors.New("verif: the read did not return within 1.5 s")
+		}
+	}
+	for _, op := range c.Ops {
+		if hung {
+			obs = append(obs, map[string]any{"r": "err:abandoned after a hanging read", "q": dbq, "dump": [][]any{}})
+			continue
+		}
 		timex.VerifAdvance(11 * time.Second) // empties the Redis breaker's window
 		src.vals, src.i = op.U, 0
 		o := map[string]any{}
@@ -330,12 +366,17 @@ func verifRunCase(c verifCase) (any, bool) {
 			rctx = cctx
 		}
 		switch op.Op {
-		case "qrow", "qrowc", "qrowe":
+		case "qrow", "qrowc", "qrowe", "qrowp":
 			var row verifRow
-			err := cc.QueryRowCtx(rctx, &row, keyName([]any{"pk", float64(op.ID)}), func(ctx context.Context, conn sqlx.Conn, v any) error {
-				dbq++
-				got, ok := db[op.ID]
-				return vsql.queryRow(ctx, op.Via, v.(*verifRow), op.ID, got, ok, op.Op == "qrowe")
+			err := guarded(func() error {
+				return cc.QueryRowCtx(rctx, &row, keyName([]any{"pk", float64(op.ID)}), func(ctx context.Context, conn sqlx.Conn, v any) error {
+					dbq++
+					if op.Op == "qrowp" {
+						panic("verif: the query callback panics")
+					}
+					got, ok := db[op.ID]
+					return vsql.queryRow(ctx, op.Via, v.(*verifRow), op.ID, got, ok, op.Op == "qrowe")
+				})
 			})
 			o["r"] = verifErr(err)
 			if err == nil {
@@ -369,12 +410,21 @@ func verifRunCase(c verifCase) (any, bool) {
 				o["r"] = "row"
 				o["row"] = []int{row.ID, row.Ix, row.Val}
 			}
-		case "exec":
+		case "wait":
+			// real time passes (milliseconds): the cleaner's own 1 s wheel, which this package cannot replace, gets to
+			// run the first retry of a delete that failed
+			time.Sleep(time.Duration(op.Dt) * time.Millisecond)
+			o["r"] = "ok"
+		case "exec", "execc":
 			var ks []string
 			for _, k := range op.Keys {
 				ks = append(ks, keyName(k))
 			}
-			_, err := cc.ExecCtx(ctx, func(ctx context.Context, conn sqlx.Conn) (sql.Result, error) {
+			ectx, ecancel := context.WithCancel(ctx)
+			_, err := cc.ExecCtx(ectx, func(ctx context.Context, conn sqlx.Conn) (sql.Result, error) {
+				if op.Op == "execc" {
+					defer ecancel() // the request's context is cancelled while the callback runs, after the write
+				}
 				switch op.W[0].(string) {
 				case "put":
 					id := int(op.W[1].(float64))
@@ -394,6 +444,7 @@ func verifRunCase(c verifCase) (any, bool) {
 				}
 				return nil, nil
 			}, ks...)
+			ecancel()
 			o["r"] = verifErr(err)
 		case "del":
 			var ks []string
